@@ -536,3 +536,40 @@ package nbhttp
 //@     invariant !hasClose && !connHas(request, "close", rangeindex + 1) && keepAlive == connHas(request, "keep-alive", rangeindex + 1) && rangeindex < len(request.Header["Connection"])
 //@     invariant ((hasClose || keepAlive) ==> len(request.Header["Connection"]) > 0) && request.ProtoMajor >= 1
 //@     invariant rangeindex >= -1 && gExec == old(gExec) && gServed == old(gServed) && request != nil && request == old(p.request) && p.request == nil && parser.Engine == engine && engine != nil && engine.Handler != nil && parser.Execute != nil && conn != nil
+
+// ---- HTTP client: the pending-handler queue (C10). Responses arrive in request order; each one is handed to the head
+// of the queue, which is then removed; what stays pending keeps its order; when the connection fails every pending
+// callback is invoked once with the error and the queue is emptied. Callbacks are counted per thread (gInv).
+//@ ghost local ClientConn.gInv : Int
+//@ ghost local ClientConn.gFlushed : Bool
+//@ fieldfunc nbhttp.resHandler.h
+//@   params res conn err
+//@   note user callback; it runs under the connection's mutex, so it cannot reach the pending queue (Do, onResponse and CloseWithError would block): it is specified as leaving the modelled heap alone
+//@   assigns allocates
+//@ fieldfunc nbhttp.ClientConn.onClose
+//@   note user callback, same remark
+//@   assigns allocates
+//@ func (*ClientConn).closeWithErrorWithoutLock
+//@   props C10
+//@   safety index slice nil lock
+//@   requires c != nil && holds(c.mux) && c.Engine != nil && !holds(c.Engine.mux)
+//@   ensures flushed: len(c.handlers) == 0 && c.gFlushed && c.gInv == old(c.gInv) + old(len(c.handlers))   // prop C10
+//@   ensures locked: holds(c.mux) && c.closed == old(c.closed)
+//@   assigns everything, c.gInv, c.gFlushed
+//@   at call:h#1 ghost { c.gInv = c.gInv + 1 }
+//@   at return ghost { c.gFlushed = true }
+//@   loop 1
+//@     invariant c != nil && holds(c.mux) && c.Engine != nil && !holds(c.Engine.mux) && c.closed == old(c.closed) && c.handlers == old(c.handlers) && rangeindex >= -1 && rangeindex < len(c.handlers) && c.gInv == old(c.gInv) + rangeindex + 1 && err != nil
+//@ func (*ClientConn).onResponse
+//@   props C10
+//@   safety index slice nil lock
+//@   requires c != nil && !holds(c.mux) && c.Engine != nil && !holds(c.Engine.mux) && (!c.closed && len(c.handlers) > 0 ==> c.conn != nil)
+//@   ensures unlocked: !holds(c.mux)
+//@   ensures once: old(!c.closed && len(c.handlers) > 0) ==> c.gInv == 1 + ite(c.gFlushed, old(len(c.handlers)) - 1, 0)   // prop C10
+//@   ensures none: old(c.closed || len(c.handlers) == 0) ==> c.gInv == 0 && !c.gFlushed   // prop C10
+//@   ensures pop: old(!c.closed && len(c.handlers) > 0) && !c.gFlushed ==> len(c.handlers) == old(len(c.handlers)) - 1 && (forall p int {mem(c.handlers, p)} :: off(c.handlers) <= p && p < off(c.handlers) + len(c.handlers) ==> mem(c.handlers, p).h == memold(old(c.handlers), old(off(c.handlers)) + p - off(c.handlers) + 1).h)   // prop C10
+//@   assigns everything, c.gInv, c.gFlushed
+//@   at entry ghost { c.gInv = 0; c.gFlushed = false }
+//@   at before:h#1 assert head: head.h == old(c.handlers[0].h)   // prop C10
+//@   at before:h#1 assert answer: arg_res == res && arg_err == err   // prop C10
+//@   at call:h#1 ghost { c.gInv = c.gInv + 1 }
